@@ -55,7 +55,7 @@ fn compositions(n: u32, k: usize, cur: &mut Vec<u32>, out: &mut Vec<Vec<u32>>) {
 }
 
 /// Every score state consistent with the counts of the prefix.
-fn states_for(a: &DifficultyAttributes, lazer: bool) -> Vec<ScoreState> {
+fn states_for(a: &DifficultyAttributes, lazer: bool, classic_lazer: bool) -> Vec<ScoreState> {
     let mut out = Vec::new();
     let mut comps = Vec::new();
     match a {
@@ -63,7 +63,9 @@ fn states_for(a: &DifficultyAttributes, lazer: bool) -> Vec<ScoreState> {
             compositions(o.n_objects(), 4, &mut Vec::new(), &mut comps);
             for c in &comps {
                 for combo in [0, o.max_combo.saturating_sub(c[3])] {
-                    for (lt, se) in [(0, 0), (o.n_large_ticks, o.n_sliders)] {
+                    // lazer scores with Classic count slider heads as large ticks and slider ends as small ticks
+                    let pairs = if classic_lazer { vec![(0, 0), (o.n_large_ticks, o.n_sliders), (o.n_large_ticks + o.n_sliders, o.n_sliders), (o.n_large_ticks + o.n_sliders, 0)] } else { vec![(0, 0), (o.n_large_ticks, o.n_sliders)] };
+                    for (lt, se) in pairs {
                         out.push(ScoreState { max_combo: combo, osu_large_tick_hits: lt, osu_small_tick_hits: se, slider_end_hits: se, n300: c[0], n100: c[1], n50: c[2], misses: c[3], ..ScoreState::new() });
                     }
                 }
@@ -192,7 +194,7 @@ fn check_case(l: &mut Local<'_>, cfg: gen::ModeCfg, spec: &MapSpec, menu: &[Sett
             if a.stars() > 0.0 {
                 l.nontrivial();
             }
-            for state in states_for(&a, lazer && !classic) {
+            for state in states_for(&a, lazer && !classic, lazer && classic) {
                 let acc = accuracy_of(&a, &state, lazer, classic);
                 l.checked(1);
                 if !(0.0..=1.0).contains(&acc) {
@@ -255,7 +257,7 @@ fn check_case_limited(l: &mut Local<'_>, cfg: gen::ModeCfg, spec: &MapSpec, menu
             if a.stars() > 0.0 {
                 l.nontrivial();
             }
-            for state in states_for(&a, lazer && !classic).into_iter().step_by(7).take(400) {
+            for state in states_for(&a, lazer && !classic, lazer && classic).into_iter().step_by(7).take(400) {
                 let acc = accuracy_of(&a, &state, lazer, classic);
                 l.checked(1);
                 if !(0.0..=1.0).contains(&acc) {
@@ -287,7 +289,7 @@ fn check_case_limited(l: &mut Local<'_>, cfg: gen::ModeCfg, spec: &MapSpec, menu
 
 fn main() {
     let ctx = Ctx::from_env("C09");
-    ctx.rule("case = (mode configuration, grammar map incl. degenerate shapes: empty, single object, all spinners, fully stacked, 1 ms gaps, 7 s gaps); per case: settings menu (mods incl. RX/AP/TD/SO/FL/Classic x lazer flag, clock rates {0.5,0.75,1.5,2}, AR/CS/OD/HP all in {0,5,10,11} x with_mods) x every passed_objects prefix x every score state consistent with the prefix counts (all compositions into the mode's hit results; combo in {0,max}; slider end / tick hits in {0,max}); oracle on the Debug dumps: no NaN/inf anywhere in difficulty attributes, strains, performance attributes; every float field except ar/hp >= 0; accuracy() in [0,1]; generated state with zero hits => pp == 0; non-trivial = stars > 0");
+    ctx.rule("case = (mode configuration, grammar map incl. degenerate shapes: empty, single object, all spinners, fully stacked, 1 ms gaps, 7 s gaps); per case: settings menu (mods incl. RX/AP/TD/SO/FL/Classic x lazer flag, clock rates {0.5,0.75,1.5,2}, AR/CS/OD/HP all in {0,5,10,11} x with_mods) x every passed_objects prefix x every score state consistent with the prefix counts (all compositions into the mode's hit results; combo in {0,max}; slider end / tick hits in {0,max}, under lazer Classic large ticks also at max + slider heads); oracle on the Debug dumps: no NaN/inf anywhere in difficulty attributes, strains, performance attributes; every float field except ar/hp >= 0; accuracy() in [0,1]; generated state with zero hits => pp == 0; non-trivial = stars > 0");
 
     let rich = !ctx.quick();
     // periodic longer maps (12 objects), a reduced settings menu, every prefix, every consistent score state of up to 6 judgements
